@@ -477,7 +477,7 @@ func c02Codecs(c *Ctx, rule string) {
 	reach := w.CG().Reach(roots...)
 	changed := map[string]token.Pos{}
 	for f := range reach {
-		if storeConstructors[f.Name] || f.Name == "storage.(*fileStore).open" {
+		if c.W.isStoreConstructor(f) || f.Name == "storage.(*fileStore).open" {
 			continue
 		}
 		ast.Inspect(f.Decl.Body, func(n ast.Node) bool {
